@@ -37,6 +37,9 @@ LOGGERS = {"_logger", "_csv_logger", "logger"}
 MUTATING = {"append", "extend", "remove", "pop", "clear", "update", "insert", "setdefault", "popitem", "add", "discard", "appendleft",
             "extendleft", "popleft", "sort", "reverse"}
 JUMPS = (ast.Return, ast.Continue, ast.Break, ast.Raise)
+# expression forms whose value is a *new* object computed from the contents of their operands (`a + b` of two lists, `x in xs`,
+# displays, f-strings): a later in-place change of an operand does not reach the value, so they are heap-dependent like a subscript
+_CONTENT_READERS = (ast.Subscript, ast.BinOp, ast.Compare, ast.List, ast.Tuple, ast.Set, ast.Dict, ast.JoinedStr, ast.Starred)
 
 
 def clone(e: ast.AST) -> ast.AST:
@@ -328,7 +331,7 @@ def inline_new_locals(fn: ast.AST, ref_locals: Set[str], keep: Set[str] = frozen
 
                 def span_loops(node):
                     return {id(l) for l in loops_of[id(node)] if in_span(l)}
-                heap = bool(attrs) or anycall or any(isinstance(x, ast.Subscript) for x in ast.walk(E))
+                heap = bool(attrs) or anycall or any(isinstance(x, _CONTENT_READERS) for x in ast.walk(E))
                 conts = containers_of(E)
                 ok = True
                 # names the expression reads must not be rebound in the span (simplest sound condition for names)
@@ -422,7 +425,7 @@ def drop_redundant_rebindings(fn: ast.AST) -> int:
                     prev = avail.get(v)
                     if prev is not None and u(prev.value) == u(s.value) and not in_loop:
                         names, attrs, impure, anycall = roots_attrs(s.value)
-                        heap = bool(attrs) or anycall or any(isinstance(x, ast.Subscript) for x in ast.walk(s.value))
+                        heap = bool(attrs) or anycall or any(isinstance(x, _CONTENT_READERS) for x in ast.walk(s.value))
                         conts = containers_of(s.value)
                         between = order[last[id(prev)] + 1:pos[id(s)]]
                         if not impure and v not in names and not any(
